@@ -233,6 +233,8 @@ func (vc *VC) assumeAllocated(st *State, v Value, t SType) {
 	case KSlice:
 		sv := v.(SliceVal)
 		vc.script.Assume(Implies(st.pc, Or(Eq(sv.Arr, Zero), Select(alloc, sv.Arr))))
+		// well-formed slice header (type safety): nil has no elements, 0 <= len <= cap
+		vc.script.Assume(Implies(st.pc, And(Ge(sv.Off, Zero), Ge(sv.Len, Zero), Le(sv.Len, sv.Cap), Implies(Eq(sv.Arr, Zero), Eq(sv.Cap, Zero)))))
 	case KStruct:
 		if sv, ok := v.(StructVal); ok {
 			s, _ := structOf(t.Go)
